@@ -89,7 +89,7 @@ def _run_case(ctx, case):
         return
     enc = case.get("encoding") or rng.choice(["codes", "lines", "lines", "stale", "agree", "chg_only", "rad_only"])
     v2 = V2Style(encoding="lines", per_line=rng.choice([0, 0, 1, 2, 3, 4, 5, 6, 7, 8, 8, 8]), dt_symbols=rng.random() < 0.7,
-                 unrelated=rng.choice([0, 0, 0.3, 0.6]), atom_lists=rng.choice([0, 0, 0, 1, 3]), eol=rng.choice(["\n", "\n", "\r\n", "\r", "mixed"]),
+                 unrelated=rng.choice([0, 0, 0.3, 0.6]), atom_lists=rng.choice([0, 0, 0, 1, 3]), eol=rng.choice(["\n", "\n", "\r\n", "mixed"]),
                  explicit_zero=rng.choice([0, 0, 0.3]), shuffle_entries=rng.random() < 0.5, interleave=rng.random() < 0.5,
                  after_end=rng.choice(["", "", "$$$$"]), final_eol=rng.random() < 0.5, stereo_fields=rng.random() < 0.3,
                  header=rng.choice([None, ["", "", ""], ["M  CHG  1   1   1", "M  ISO", "M  END"], ["glycine, V2000", "  prog", "converted from V3000"],
